@@ -1,4 +1,5 @@
 use std::num::{NonZeroU16, NonZeroU32};
+use std::task::{Context, Poll, Waker};
 use std::{cell::Cell, fmt, future::Future, future::ready, rc::Rc};
 
 use ntex_bytes::{ByteString, Bytes};
@@ -720,6 +721,13 @@ impl fmt::Debug for StreamingPayload {
 
 impl Drop for StreamingPayload {
     fn drop(&mut self) {
+        // publish packet could be sent already, even if `.send()` has not been called
+        if let Some(rx) = self.rx.take() {
+            let mut cx = Context::from_waker(Waker::noop());
+            if matches!(rx.poll_recv(&mut cx), Poll::Ready(Ok(()))) {
+                self.inprocess.set(true);
+            }
+        }
         if self.inprocess.get() && self.shared.is_streaming() {
             self.shared.streaming_dropped();
         }
